@@ -206,7 +206,6 @@ func c19live(run *vlab.Run, c c19case) {
 			}
 		}
 	})
-	run.Eval(1)
 	if n := int(atomic.LoadInt32(&d.calls)); !finished && c.FailPass > 0 && n > c.FailPass+50 {
 		run.Violation("busy-loop-after-failed-pass", fmt.Sprintf("%d delegate calls after pass %d failed to start, and the stream did not end after cancellation: %+v", n-c.FailPass, c.FailPass, c), c)
 		return
@@ -355,6 +354,7 @@ func TestVerifC19Live(t *testing.T) {
 		}
 		run.Case(fmt.Sprintf("live%05d", i), c)
 		c19live(run, c)
+		run.Eval(1)
 		run.Distinct(fmt.Sprintf("%+v", c))
 		if run.WantSample() && c.Exclude != "" {
 			run.Sample(c)
